@@ -100,8 +100,10 @@ pub fn run(ctx: &Ctx, rep: &mut Report) {
                         let negative = xs.iter().filter(|x| x.is_sign_negative()).count() % 2 == 1;
                         let bad = if has_zero && has_inf { !got.is_nan() }
                             else if got.is_nan() {
-                                // otherwise NaN can only come from a partial product that overflowed meeting one that is (or underflowed to) zero
-                                !((has_inf || xs.iter().any(|x| x.abs() > 1e100)) && (has_zero || xs.iter().any(|x| x.abs() < 1e-100)))
+                                // otherwise NaN can only come from a partial product that overflowed meeting a factor that
+                                // is (or a partial product that underflowed to) zero: exactly when the left fold in the
+                                // given order is NaN
+                                !xs.iter().fold(1.0f64, |a, x| a * x).is_nan()
                             }
                             else { got.is_sign_negative() != negative || (has_zero && got != 0.0) };
                         if bad {
